@@ -3,6 +3,8 @@
 cd /verif || exit 1
 export GOFLAGS=-mod=mod GOPROXY=off GOTOOLCHAIN=local
 mkdir -p bin evidence
-(cd harness && go build -tags verif -o /verif/bin/verif ./cmd/verif) || exit 1
+(cd harness && go build -tags verif -o /verif/bin/verif ./cmd/verif \
+  && go build -tags verif -o /verif/bin/cbtemulator github.com/fullstorydev/emulators/bigtable/cmd/cbtemulator \
+  && go build -tags verif -o /verif/bin/gcsemulator github.com/fullstorydev/emulators/storage/cmd/gcsemulator) || exit 1
 scripts/sany-all.sh || exit 1
 echo setup-ok
